@@ -23,7 +23,7 @@ CHECKS = {
    "Oracles after the setter and Cleanup: strict parse; exactly one directive per requested path with the requested version and indirect marking, none for other paths; every block in its documented order (reference comparators incl. an independent SemVer precedence); the first existing line of every kept path keeps its leading and end-of-line comments; the one-uncommented-statement case leaves no block mixing direct and indirect requirements; the 4 repetitions are byte-identical.",
    "Weak fit, stated (see C08). Map order is sampled by repetition, not controlled.", "4 (C08/C15/C16)"),
  "C05": ("zipsim", "deterministic simulation of the zip pipeline: simulated zip.File sources and writer with placed I/O faults -> real Create -> stored bytes -> real CheckZip/Unzip in a sandbox; reference restriction checker over the archive listing",
-   "Seeded source trees over an adversarial name alphabet, truthful or with 1-3 placed faults (writer error/short write at byte k, Open error, read error after k bytes, file grew/shrank after Lstat, Lstat error), valid and invalid module/version pairs; every successful Create is checked entry by entry against the documented restrictions, then through the real CheckZip and Unzip and compared byte for byte with the files the check reported valid.",
+   "Seeded source trees over an adversarial name alphabet, truthful or with 1-3 placed faults (writer error/short write at byte k, Open error, read error after k bytes, file grew/shrank after Lstat, Lstat error, Open reporting not-exist) or inside a busy process (an earlier failed Create, and a complete second Create placed inside one Read of the first), valid and invalid module/version pairs; every successful Create is checked entry by entry against the documented restrictions, then through the real CheckZip and Unzip and compared byte for byte with the files the check reported valid.",
    "Faults that never reached Create are not counted as delivered. Sampled, not exhaustive.", "4 (C05)"),
  "C12": ("zipsim", "deterministic simulation with at-rest fault injection: hostile and damaged archives extracted by the real Unzip into a five-level sentinel sandbox snapshotted before and after; reference restriction checker decides what the zip check must refuse",
    "Seeded archives from three sources (harness-built with hostile names, prefixes, directory entries and mode bits, lying and overflowing declared sizes; Create output truncated / bit-flipped / size-patched; intact Create output) against targets that are missing, empty, non-empty, a file or under a missing parent. Oracles: nothing outside the target changes; CheckZip never accepts an archive that violates a documented restriction; Unzip succeeds exactly when CheckZip accepts, for every archive; Unzip never succeeds on data that contradict their declarations; the extracted tree equals the entries.",
@@ -32,13 +32,13 @@ CHECKS = {
    "Seeded trees over an adversarial alphabet (case-fold orbits, vendor layouts, nested go.mod in any case, reserved/ill-formed/unclean/absolute names, duplicates, file/dir clashes, irregular modes, sizes at the limits, go versions absent/old/new/unparsable/unreadable) checked with CheckFiles in 3-6 listing orders: exactly-one-list, class by the documented rules (all readings accepted where the documentation is silent), colliding pairs never both valid, order independence; half of the runs compare CreateFromDir/CheckDir with Create/CheckFiles on a materialised tree.",
    "Weak fit: no fault surface beyond listing order and Lstat/read results; the deciding part is the comparison with the reference classifier.", "4 (C17)"),
  "C19": ("zipsim", "deterministic simulation of Hash1's open/read seam with placed faults and listing orders, plus HashZip/HashDir on archives produced and extracted by the zip pipeline; reference h1 formula",
-   "Seeded file sets over a hostile name alphabet hashed in 2-4 listing orders and compared with the documented formula; open/read faults placed on chosen files must yield an error and no hash; names with a newline at any position are refused; a near-identical second set must hash differently; a third of the runs hash a created zip and its extracted directory (named in five equivalent ways) and compare both with the formula.",
+   "Seeded file sets over a hostile name alphabet hashed in 2-4 listing orders and compared with the documented formula; open/read faults placed on chosen files (also an error delivered together with the remaining bytes) must yield an error and no hash; names with a newline at any position are refused; a near-identical second set must hash differently; a third of the runs hash a created zip and its extracted directory (named in five equivalent ways, half of them with a second HashDir placed inside the caller-supplied hash function) and compare both with the formula.",
    "Trusts SHA-256.", "4 (C19)"),
  "C03": ("sumdbsim", "deterministic simulation of the prover/verifier exchange: real Prove*/Check* over a failing HashReader or the faulty tile transport, seeded in-transit mutation of the proof tuple, reference RFC 6962 prover and RFC 9162 verifier as oracle; exhaustive small (t,n) sweep",
-   "All (t, n) pairs up to 160 are enumerated (proof equals the reference, accepted, and presented under all 25 shifted (t, n) pairs accepted iff the RFC 9162 algorithm accepts); seeded runs add trees up to 300 real records and virtual uniform trees up to 2^41 leaves, 22 kinds of tuple mutation, HashReader faults and proofs through the authenticating tile reader. Non-termination of a call is reported after 20 s.",
+   "All (t, n) pairs up to 160 are enumerated (proof equals the reference, accepted, and presented under all 25 shifted (t, n) pairs accepted iff the RFC 9162 algorithm accepts); seeded runs add trees up to 300 real records and virtual uniform trees up to 2^41 leaves, 22 kinds of tuple mutation, HashReader faults and proofs through the authenticating tile reader; a proof already handed out is re-checked after the next proof has been produced. Non-termination of a call is reported after 20 s.",
    "The soundness half is a pure relation on the tuple; the simulator contributes the HashReader/tile-transport fault model. Trusts SHA-256 and sim/ref. Sampled beyond the swept range.", "4 (C03)"),
  "C07": ("sumdbsim", "deterministic simulation of a cosigning chain over a corrupting transport with simulator-implemented Verifiers/Verifier/Signer seams (spies, verdict-decided fakes, failing signers, reused receive buffers); reference note parser + crypto/ed25519 oracle",
-   "Seeded chains of origin, 0-4 witnesses and a final reader; every Open is compared with the documented semantics computed independently (accept/reject, text, verified/unverified partition, UnverifiedNoteError content, each verified signature backed by a recorded Verify call over the returned text), every Sign with the exact documented bytes.",
+   "Seeded chains of origin, 0-4 witnesses and a final reader; every Open is compared with the documented semantics computed independently (accept/reject, text, verified/unverified partition, UnverifiedNoteError content, each verified signature backed by a recorded Verify call over the returned text), every Sign with the exact documented bytes, including a Sign call placed inside another call's signer after a failed signing attempt.",
    "Trusts Ed25519 and the reference parser. Every signature line of a known key is verified, repeated ones included (the reference once copied the code's behaviour of skipping them: defect D16).", "4 (C07)"),
  "C09": ("sumdbsim", "deterministic simulation of a log store built only from tlog.StoredHashes with failing store reads, compared after every append with a reference RFC 6962 tree; virtual uniform logs for sizes beyond memory",
    "Seeded append histories (1-120, thorough 2000 records; texts with Unicode, U+FFFD, buffer-boundary lengths) with store read faults at random appends; after each append store length, coordinates of every new position, every stored hash and TreeHash(m) for all m (<=128) are checked against the reference; coordinates up to 2^60 records and a virtual log up to 2^44 records cover index arithmetic beyond 32 bits; text encodings round-trip. Every third run interleaves 2-4 logs of one process at the HashReader seam (whole operations of other logs run while one is parked inside its read, some after failed reads).",
